@@ -118,14 +118,23 @@ def check_point_set(viol, vb, cfield, t, v, cellmass, ctx_msg):
 
 
 def make_duck(cf, t, v, mass, c_, order="given"):
+    """a REAL Calculator object that has not gone through __init__ (no files): its public state is set directly, so
+    helper methods of the class remain available to _calculate_compliances; modulus_keys is derived by the class itself
+    from the static table's first row, as in a real run"""
+    from collections import OrderedDict as OD
+    from cij.core.calculator import Calculator
     keys = [c_(*p) for p in cf]
     if order == "reversed":
         keys = keys[::-1]
-    return SimpleNamespace(
-        modulus_keys=keys, modulus_adiabatic={c_(*p): a for p, a in cf.items()},
-        modulus_isothermal={c_(*p): a * (0.97 - 0.01 * (p[0] == p[1])) for p, a in cf.items()}, dims=(len(t), len(v)),
-        elast_data=SimpleNamespace(cellmass=mass),
-        qha_calculator=SimpleNamespace(volume_base=SimpleNamespace(v_array=v, t_array=t)))
+    obj = Calculator.__new__(Calculator)
+    obj.qha_calculator = SimpleNamespace(volume_base=SimpleNamespace(v_array=v, t_array=t), v_array=v, t_array=t)
+    obj.elast_data = SimpleNamespace(cellmass=mass, vref=float(v[0]), nv=1, lattice_parmeters=[],
+                                     volumes=[SimpleNamespace(volume=float(v[0]), static_elastic_modulus=OD((k, 0.0) for k in keys))])
+    obj.modulus_adiabatic = {c_(*p): a for p, a in cf.items()}
+    obj.modulus_isothermal = {c_(*p): a * (0.97 - 0.01 * (p[0] == p[1])) for p, a in cf.items()}
+    if [tuple(k.voigt) for k in obj.modulus_keys] != [tuple(k.voigt) for k in keys] or tuple(obj.dims) != (len(t), len(v)):
+        raise HarnessError("the file-less Calculator object does not expose the keys / grid it was given")
+    return obj
 
 
 READ_ALPHABET = ["c11t", "c12t", "c_44t", "c11", "c1122s", "s11", "s44", "s2323", "s1113", "s_66", "bulk_modulus_voigt", "shear_modulus_reuss",
@@ -143,7 +152,7 @@ def run_reads(case):
 
     def fresh():
         duck = make_duck(cf, t, v, 40.3044, c_)
-        Calculator._calculate_compliances(duck)
+        duck._calculate_compliances()
         return CijVolumeBaseInterface(duck)
     try:
         vb = fresh()
@@ -193,6 +202,14 @@ def run_calcs(case):
 
 
 def run_case(case):
+    if case.get("interp"):
+        # the same case in an interpreter started with other flags (-O strips assert statements)
+        from mc.explore import run_in_interpreter
+        inner = {k: v for k, v in case.items() if k != "interp"}
+        rec = run_in_interpreter(ID, MOD, "run_case", inner, tuple(case["interp"]))
+        for v in rec["viol"]:
+            v["sig"] = v["sig"].replace("c07:", "c07:python" + "".join(case["interp"]) + ":", 1)
+        return {"viol": rec["viol"], "nontrivial": True, "outcome": "interp-ok" if not rec["viol"] else rec["viol"][0]["sig"]}
     from cij.core.calculator import Calculator, CijVolumeBaseInterface
     from cij.util import c_
     viol = []
@@ -206,7 +223,7 @@ def run_case(case):
                 cf = subset_field(mask, MAGS["gpa"], t, v)
                 duck = make_duck(cf, t, v, case["mass"], c_)
                 try:
-                    Calculator._calculate_compliances(duck)
+                    duck._calculate_compliances()
                     vb = CijVolumeBaseInterface(duck)
                 except Exception as ex:
                     seam_guard(ex)
@@ -220,7 +237,7 @@ def run_case(case):
         cf = stiffness_field(case["system"], MAGS[case["mag"]], t, v, case["extras"])
         duck = make_duck(cf, t, v, case["mass"], c_, case.get("order", "given"))
         try:
-            Calculator._calculate_compliances(duck)
+            duck._calculate_compliances()
             vb = CijVolumeBaseInterface(duck)
         except Exception as ex:
             seam_guard(ex)
@@ -257,7 +274,7 @@ def explore(ctx):
                 "2 grid shapes x 3 cell masses x 2 key orders on a duck calculator driving the real _calculate_compliances and "
                 "CijVolumeBaseInterface, all 4096 subsets of the twelve non-orthotropic components added to the nine orthotropic ones, all "
                 "ordered sequences of <=2 (<=3 thorough) attribute reads on one interface object (each read equal to a fresh object's), "
-                "plus real Calculators (3 data sets x 4 systems x 2 masses; cell mass written in plain, exponent, integer and signed notation) and all ordered pairs (triples thorough) of real Calculators kept "
+                "plus real Calculators (3 data sets x 4 systems x 4 cell masses from 1 to 24000 g/mol; three of them and three duck cases also in an interpreter started with -O; cell mass written in plain, exponent, integer and signed notation) and all ordered pairs (triples thorough) of real Calculators kept "
                 "alive together in one process; every positive-definite grid point: "
                 "K/G Voigt, Reuss, Hill vs C_iijj, C_ijij, S_iijj, S_ijij of the full tensor, bounds, s*c = 1, rho v^2 identities in SI; "
                 "non-trivial = at least one positive-definite grid point")
@@ -281,7 +298,10 @@ def explore(ctx):
     res += ctx.run(MOD, "run_case", [{"kind": "reads", "system": "monoclinic", "ops": sq} for sq in seqs], part="read-histories",
                    transitions=sum(len(sq) for sq in seqs))
     real = [{"kind": "calc", "data": dname, "system": s, "mass": m} for dname in ("A", "B", "C")
-            for s in ("orthorhombic", "monoclinic", "cubic", "trigonal7") for m in (100.3887, 7.25)]
+            for s in ("orthorhombic", "monoclinic", "cubic", "trigonal7") for m in (100.3887, 7.25, 1.00794, 24000.0)]
+    # interpreter mode: the same runs under `python -O` (assert statements stripped), duck and real
+    real += [{"kind": "calc", "data": dname, "system": s, "mass": 100.3887, "interp": ["-O"]} for dname, s in (("A", "monoclinic"), ("B", "orthorhombic"), ("C", "cubic"))]
+    real += [{"kind": "duck", "system": s, "mag": "gpa", "extras": False, "grid": "3x4", "mass": 40.3044, "order": "given", "interp": ["-O"]} for s in ("triclinic", "cubic", "hexagonal")]
     real += [{"kind": "calc", "data": "A", "system": "orthorhombic", "mass": m, "mass_text": mt} for m in (100.3887, 7.25, 1234.5) for mt in ("exp", "EXP", "int", "plus")]
     res += ctx.run(MOD, "run_case", real, part="real-calculators", chunksize=1)
     variants = [("A", "trigonal7"), ("A", "orthorhombic"), ("B", "monoclinic"), ("C", "cubic")]
